@@ -264,6 +264,9 @@ func cmdCheck(args []string) int {
 		assumptions = append(assumptions, n)
 	}
 	for name, ct := range S.Contracts {
+		if ct.AssumeFacets != "" {
+			assumptions = append(assumptions, "facet "+ct.AssumeFacets+" clauses assumed (not verified) for "+name)
+		}
 		if ct.Trusted {
 			assumptions = append(assumptions, "trusted contract (assumed, body not verified): "+name)
 		}
